@@ -34,6 +34,11 @@ structure JCase where
   lastPends : List (Nat × List SyncOp) := []
   lastChain : List String := []
   dumps : Nat := 0
+  nline : Nat := 0                                     -- echoed input lines seen so far
+  lastCmd : List String := []
+  pendUpd : List (Nat × Nat × String × Option String × Int) := []   -- concurrent updates that were committed: replica, task, property, value, timestamp
+  structural : List Nat := []                          -- tasks created / deleted concurrently or later
+  laterUpd : List (Nat × String) := []                 -- (task, property) updated again after the concurrent section
 
 def afterPrefix (s : String) (p : String) : Option String :=
   if s.startsWith p then some (s.drop p.length).toString else none
@@ -94,12 +99,46 @@ def briefWords (s : String) : String :=
   " ".intercalate ((s.splitOn " ").map fun w =>
     if w.length > 400 then (w.take 160).toString ++ s!"…<{w.length} chars, fnv={fnv1a w.toUTF8}>" else w)
 
+def hdrNat (hdr : String) (key : String) : Option Nat :=
+  (hdr.splitOn " ").findSome? fun t => (afterPrefix t (key ++ "=")).bind String.toNat?
+
+def laterPair (t1 : Int) (v1 : Option String) (t2 : Int) (v2 : Option String) : Bool :=
+  decide (t1 < t2) || (decide (t1 = t2) && vlt v1 v2)
+
+/-- **winner** (C03): in a conflict group, for every (task, property) that was only touched by
+    concurrent updates — at most one per replica, the task neither created nor deleted
+    concurrently, nothing changed it afterwards — the final value is that of the update with the
+    greatest (timestamp, value), whatever the sync order. -/
+def winnerCheck (c : JCase) : List String :=
+  match groupOf c.hdr, c.lastReps.head? with
+  | some _, some (_, _, _, tasksTxt) =>
+    match parseCanonDB tasksTxt with
+    | none => ["parse bad-final-tasks"]
+    | some tasks =>
+      let pairs := (c.pendUpd.map fun (_, u, k, _, _) => (u, k)).eraseDups
+      pairs.filterMap fun (u, k) =>
+        let ups := c.pendUpd.filter fun (_, u', k', _, _) => u' == u && k' == k
+        let reps := ups.map (·.1)
+        if c.structural.contains u || c.laterUpd.contains (u, k) || (sortDedup reps).length != reps.length then none
+        else
+          match ups with
+          | [] => none
+          | (_, _, _, v0, t0) :: rest =>
+            let (wv, _) := rest.foldl (fun (bv, bt) (_, _, _, v, t) => if laterPair bt bv t v then (v, t) else (bv, bt)) (v0, t0)
+            match tasks.find? (·.1 == u) with
+            | none => none      -- the task does not exist in the end (never created): nothing to compare
+            | some (_, m) =>
+              let got := (m.find? (·.1 == k)).map (·.2)
+              if got == wv then none
+              else some s!"winner wrong task={u} property={encStr k} final={got.map encStr} expected={wv.map encStr} updates={ups.map fun (r, _, _, v, t) => (r, v.map encStr, t)}"
+  | _, _ => []
+
 def flushCase (c : JCase) : List String :=
   if !c.active then []
   else
     let final := judgeDump { c with reps := c.lastReps, pends := c.lastPends, chainTxt := c.lastChain, snaps := [], sent := [] } true
     let nodump := if c.dumps == 0 then ["parse no-dump"] else []
-    match c.fails ++ final ++ nodump ++ (orderCheck c).1 with
+    match c.fails ++ final ++ nodump ++ (orderCheck c).1 ++ winnerCheck c with
     | [] => [s!"judge {c.hdr} :: ok"]
     | fs => fs.map fun f => s!"judge {c.hdr} :: FAIL {briefWords f}"
 
@@ -116,6 +155,24 @@ def avPayload (line : String) : Option String :=
 def judgeLine (c : JCase) (line : String) : JCase × List String :=
   if line.startsWith "# case" then
     ({ hdr := line, active := true, groups := (orderCheck c).2 }, flushCase c)
+  else if line.startsWith "> " then
+    ({ c with nline := c.nline + 1, lastCmd := (line.drop 2).toString.splitOn " " }, [])
+  else if line == "ok" then
+    -- a commit went through: remember what the conflict predicates need
+    let setup := (hdrNat c.hdr "setup").getD 0
+    let pend := (hdrNat c.hdr "pend").getD 0
+    let inPending := setup < c.nline && c.nline ≤ setup + pend
+    let c := match c.lastCmd with
+      | ["C", r, "update", u, k, v, s, n] =>
+        match r.toNat?, u.toNat?, decStr k, decOptStr v, s.toInt?, n.toNat? with
+        | some r, some u, some k, some v, some s, some n =>
+          if inPending then { c with pendUpd := c.pendUpd ++ [(r, u, k, v, s * 1000000000 + n)] }
+          else if c.nline > setup + pend then { c with laterUpd := (u, k) :: c.laterUpd } else c
+        | _, _, _, _, _, _ => c
+      | ["C", _, "create", u] | ["C", _, "delete", u] =>
+        if c.nline > setup then { c with structural := (u.toNat?.getD 0) :: c.structural } else c
+      | _ => c
+    (c, [])
   else if line.startsWith "rep " && line.endsWith " busy" then (c, [])
   else if line.startsWith "pend " && line.endsWith " busy" then (c, [])
   else if line.startsWith "rep " then
